@@ -391,7 +391,7 @@ fn one_history(rep: &mut Report, rng: &mut Rng, seed: u64, hist: u64, p: &Params
 pub fn run(args: &Args, rep: &mut Report) {
     let seed = args.seed();
     let mut rng = Rng::new(seed ^ 0xC36);
-    let histories = if args.thorough() { 40_000 } else { 4_000 };
+    let histories = if args.miri() { 5 } else if args.thorough() { 40_000 } else { 4_000 };
     // `--selftest drop-copy`: the harness skips one copy() per GC while the model marks the object,
     // to show that the oracle fires on a lost marked object; never used by the driver.
     let selftest = args.get("selftest") == Some("drop-copy");
